@@ -192,7 +192,7 @@ func c12Run(c *fw.Ctx, idx int, sc c12Scenario) {
 	newest := sessIDs[len(sessIDs)-1]
 	// every node resolves the identifier to the newest session
 	for _, n := range nodes {
-		md, err := n.State.SessionMetadatas().ByClientID(clientID)
+		md, err := n.State.SessionMetadatas().ByClientID("_default", clientID)
 		c.Observe("resolutions_checked", 1)
 		if err != nil {
 			c.Violation("identifier-unresolved", fmt.Sprintf("%s: node %d resolves the client identifier to nothing (newest session %s): tearing down a displaced session removed the new record", desc, n.ID, newest), wit(map[string]interface{}{"node": n.ID}))
